@@ -23,6 +23,10 @@ pub enum SigOp {
 }
 #[derive(Copy, Clone, Debug, PartialEq, Eq, Hash, Serialize, Deserialize)]
 pub enum MsgOp {
+    /// msg := compressed pk bytes || msg (the signature stays the one over msg)
+    PrependPk,
+    /// msg := compressed pk bytes alone
+    ReplaceByPk,
     Flip(usize),
     Trunc(usize),
     Ext(u8),
@@ -96,7 +100,7 @@ impl<C: Suite> M02<C> {
     }
     fn restricted_msg(&self, m: usize) -> Vec<MsgOp> {
         let len = self.msgs[m].len();
-        let mut v = vec![MsgOp::Other, MsgOp::Ext(0)];
+        let mut v = vec![MsgOp::Other, MsgOp::Ext(0), MsgOp::PrependPk];
         if len > 0 {
             v.push(MsgOp::Flip(0));
             v.push(MsgOp::Empty);
@@ -121,6 +125,8 @@ impl<C: Suite> M02<C> {
             v.push(MsgOp::Empty);
         }
         v.push(MsgOp::Other);
+        v.push(MsgOp::PrependPk);
+        v.push(MsgOp::ReplaceByPk);
         v
     }
     /// the other base key index
@@ -288,6 +294,8 @@ impl<C: Suite> Model for M02<C> {
         let mut msg = msg0.clone();
         if let Some(op) = st.msg {
             opclass += &format!("msg.{}", match op {
+                MsgOp::PrependPk => "PrependPk",
+                MsgOp::ReplaceByPk => "ReplaceByPk",
                 MsgOp::Flip(_) => "Flip",
                 MsgOp::Trunc(_) => "Trunc",
                 MsgOp::Ext(_) => "Ext",
@@ -295,6 +303,12 @@ impl<C: Suite> Model for M02<C> {
                 MsgOp::Other => "Other",
             });
             match op {
+                MsgOp::PrependPk => {
+                    let mut m = Vec::<u8>::from(&sk.public_key());
+                    m.extend_from_slice(&msg);
+                    msg = m;
+                }
+                MsgOp::ReplaceByPk => msg = Vec::<u8>::from(&sk.public_key()),
                 MsgOp::Flip(i) => msg[i / 8] ^= 1 << (i % 8),
                 MsgOp::Trunc(l) => msg.truncate(l),
                 MsgOp::Ext(b) => msg.push(b),
